@@ -33,6 +33,44 @@ class Outcome:
         self.violations.append({"sub": sub, "sig": sig, "detail": detail})
 
 
+CASE_DEADLINE_S = 60
+
+
+class CaseTimeout(BaseException):
+    pass
+
+
+class _case_deadline:
+    """per-case wall-clock guard (SIGALRM, main thread only): keeps a check from hanging on a tree whose mutation
+    introduced a busy loop; never a correctness signal"""
+
+    def __init__(self, seconds):
+        self.seconds = seconds
+        self.armed = False
+
+    def __enter__(self):
+        import signal
+        import threading
+
+        if threading.current_thread() is threading.main_thread() and hasattr(signal, "SIGALRM"):
+            def _raise(signum, frame):
+                signal.alarm(5)  # keep interrupting until the case has really been abandoned
+                raise CaseTimeout()
+
+            self.old = signal.signal(signal.SIGALRM, _raise)
+            signal.alarm(self.seconds)
+            self.armed = True
+        return self
+
+    def __exit__(self, *exc):
+        if self.armed:
+            import signal
+
+            signal.alarm(0)
+            signal.signal(signal.SIGALRM, self.old)
+        return False
+
+
 class Falsified(Exception):
     def __init__(self, verdicts):
         super().__init__(verdicts[0]["sig"] if verdicts else "falsified")
@@ -58,7 +96,15 @@ class Judge:
 
     def __call__(self, case) -> list[dict]:
         try:
-            out: Outcome = self.mod.run_case(case)
+            with _case_deadline(CASE_DEADLINE_S):
+                out: Outcome = self.mod.run_case(case)
+        except CaseTimeout:
+            # a wall-clock budget hit is INCONCLUSIVE, never a violation (e.g. a busy loop in a broken tree); it is
+            # counted and reported in evidence so that it cannot go unnoticed
+            self.rec.extra["cases_timed_out_inconclusive"] = self.rec.extra.get("cases_timed_out_inconclusive", 0) + 1
+            if len(self.rec.notes) < 5:
+                self.rec.notes.append(f"case exceeded {CASE_DEADLINE_S}s wall clock (inconclusive): {canon(case)[:300]}")
+            return []
         except env.HarnessError:
             raise
         except BaseException as exc:  # noqa: BLE001
